@@ -311,6 +311,32 @@ impl<'a> Rw<'a> {
         }
     }
 
+    /// E14: a tuple-struct constructor used as a function value becomes an annotated closure
+    fn ctor_closure(&mut self, e: &Expr) -> Option<Expr> {
+        let p = match e { Expr::Path(p) if p.qself.is_none() && p.path.segments.len() == 1 => p, _ => return None };
+        let mut name = p.path.segments[0].ident.to_string();
+        if name == "Self" {
+            name = self.self_name.clone()?;
+        }
+        let src = self.idx.types.get(&name)?;
+        let st: ItemStruct = parse_str(&src.text).ok()?;
+        let f = match &st.fields { Fields::Unnamed(u) if u.unnamed.len() == 1 => u.unnamed[0].clone(), _ => return None };
+        // the field type is written in terms of the struct's own implementor parameter
+        let saved = self.impl_idents.clone();
+        for tp in st.generics.type_params() {
+            if !self.impl_idents.contains(&tp.ident.to_string()) {
+                self.impl_idents.push(tp.ident.to_string());
+            }
+        }
+        let mut fty = f.ty.clone();
+        self.visit_type_mut(&mut fty);
+        self.impl_idents = saved;
+        self.bump("E14.ctor_closure");
+        let hdr = self.splice(format!("-> (o__: {}) ensures o__.0 == v__", name));
+        let sid = Ident::new(&name, Span::call_site());
+        Some(Expr::Verbatim(quote!( | v__ : #fty | #hdr { #sid ( v__ ) } )))
+    }
+
     fn callee_iter_params(&self, name: &str) -> Vec<usize> {
         // name is Trait__method
         let key = name.replace("__", "::");
@@ -551,6 +577,18 @@ impl<'a> VisitMut for Rw<'a> {
     fn visit_expr_mut(&mut self, e: &mut Expr) {
         match e {
             Expr::Path(ep) => {
+                // E4b: `<[u8; N]>::try_from` has no usable Verus specification: routed to the prelude
+                // function of the same meaning (assumed contract L-STD)
+                if let Some(q) = &ep.qself {
+                    if let Type::Array(a) = &*q.ty {
+                        if a.elem.to_token_stream().to_string() == "u8" && ep.path.segments.len() == 1 && ep.path.segments[0].ident == "try_from" {
+                            let n = a.len.to_token_stream().to_string();
+                            self.bump("E4b.array_try_from");
+                            *e = parse_ex(&format!("u8_array_try_from::<{{ {} }}>", n));
+                            return;
+                        }
+                    }
+                }
                 if let Some((h, tr, used)) = self.head_of(&ep.qself, &ep.path) {
                     let rest: Vec<PathSegment> = ep.path.segments.iter().skip(used).cloned().collect();
                     match self.reduce(h, tr, &rest, false) {
@@ -645,6 +683,11 @@ impl<'a> VisitMut for Rw<'a> {
                             let r = (*mc.receiver).clone();
                             mc.receiver = Box::new(Expr::Verbatim(quote!( #r .into_iter() )));
                         }
+                    }
+                }
+                for a in mc.args.iter_mut() {
+                    if let Some(c) = self.ctor_closure(a) {
+                        *a = c;
                     }
                 }
                 if let Some(tf) = &mut mc.turbofish {
@@ -1028,7 +1071,17 @@ impl<'a> Rw<'a> {
             self.visit_pat_mut(p);
         }
         let spec = match spec {
-            None => return,
+            None => {
+                // E7: `_` parameters are named (Verus rejects wildcard closure parameters)
+                for (j, p) in cl.inputs.iter_mut().enumerate() {
+                    if let Pat::Wild(_) = p {
+                        let id = Ident::new(&format!("_w{}", j), Span::call_site());
+                        *p = parse_quote!( #id );
+                        self.bump("E7.wildcard_param");
+                    }
+                }
+                return;
+            }
             Some(s) => s,
         };
         self.used_closures.insert(k);
@@ -1146,7 +1199,10 @@ pub fn emit_fn(idx: &Index, fs: &FnSpec, tags: &[String], debug_view: bool, star
         Owner::Inherent(n) => (None, Some(n.clone()), None, sig.ident.to_string()),
         Owner::TraitImpl(_key, n, t) => {
             let st = src.impl_header.as_ref().map(|h| h.2.clone()).unwrap_or_else(|| n.clone());
-            if (t == "From" || t == "TryFrom") && !fs.as_free {
+            if t == "Default" {
+                // E1: `impl Default for T` becomes the inherent associated function `T::default()`
+                (None, Some(n.clone()), None, sig.ident.to_string())
+            } else if (t == "From" || t == "TryFrom") && !fs.as_free {
                 // kept as a real trait impl (Self stays valid)
                 (None, Some(n.clone()), None, sig.ident.to_string())
             } else {
@@ -1340,9 +1396,16 @@ pub fn emit_fn(idx: &Index, fs: &FnSpec, tags: &[String], debug_view: bool, star
     let out_name = fs.out_name.clone().unwrap_or(out_default);
     let mut s = String::new();
     let mut clause_lines: Vec<serde_json::Value> = vec![];
-    let indent = if matches!(src.owner, Owner::Inherent(_)) || conv_impl.is_some() { 1 } else { 0 };
+    let default_impl: Option<String> = match &src.owner {
+        Owner::TraitImpl(_, n, t) if t == "Default" => Some(n.clone()),
+        _ => None,
+    };
+    let indent = if matches!(src.owner, Owner::Inherent(_)) || conv_impl.is_some() || default_impl.is_some() { 1 } else { 0 };
     let pad = "    ".repeat(indent);
     if let Owner::Inherent(n) = &src.owner {
+        s.push_str(&format!("impl {} {{\n", n));
+    }
+    if let Some(n) = &default_impl {
         s.push_str(&format!("impl {} {{\n", n));
     }
     if let Some(t) = &conv_impl {
@@ -1421,7 +1484,7 @@ pub fn emit_fn(idx: &Index, fs: &FnSpec, tags: &[String], debug_view: bool, star
         s.push_str(&body);
         s.push('\n');
     }
-    if matches!(src.owner, Owner::Inherent(_)) || conv_impl.is_some() {
+    if matches!(src.owner, Owner::Inherent(_)) || conv_impl.is_some() || default_impl.is_some() {
         s.push_str("}\n");
     }
     let end_line = start_line + s.lines().count() - 1;
